@@ -254,8 +254,38 @@ def histories(tier: str, rng: random.Random):
     return bad, n
 
 
+def interpreter_limits() -> Optional[dict]:
+    """Values at the interpreter's own limits: ints (and digit strings) beyond the int <-> str conversion limit of
+    4300 digits, strings of 100 000 characters. The validators answer them like any other int / str - no
+    ValueError about digit limits, whatever route a coercer takes. (The values are described, not printed:
+    printing such an int is exactly what the limit forbids.)"""
+    from koda_validate import (BytesValidator, DecimalValidator, FloatValidator, IntValidator, ListValidator, MapValidator, Max,
+                               MaxLength, Min, OptionalValidator, StringValidator, UnionValidator)
+    big = {"10**4400": 10 ** 4400, "-(10**5000)": -(10 ** 5000), "'7' * 5000": "7" * 5000, "'x' * 100000": "x" * 100000,
+           "[10**4400]": [10 ** 4400], "{'k': 10**4400}": {"k": 10 ** 4400}}
+    vs = [("DecimalValidator()", DecimalValidator()), ("IntValidator(Min(0), Max(5))", IntValidator(Min(0), Max(5))), ("FloatValidator()", FloatValidator()),
+          ("StringValidator(MaxLength(3))", StringValidator(MaxLength(3))), ("BytesValidator()", BytesValidator()),
+          ("ListValidator(DecimalValidator())", ListValidator(DecimalValidator())), ("OptionalValidator(DecimalValidator())", OptionalValidator(DecimalValidator())),
+          ("UnionValidator.untyped(StringValidator(), DecimalValidator())", UnionValidator.untyped(StringValidator(), DecimalValidator())),
+          ("MapValidator(key=StringValidator(), value=DecimalValidator())", MapValidator(key=StringValidator(), value=DecimalValidator()))]
+    for vname, v in vs:
+        for xname, x in big.items():
+            for mode in ("sync", "async"):
+                try:
+                    r = v(x) if mode == "sync" else drive(v.validate_async(x))
+                    if not hasattr(r, "is_valid"):
+                        raise TypeError("not a result")
+                except Exception as e:  # noqa
+                    return {"kind": "oracle", "signature": f"C01:{type(e).__name__}:interpreter-limits",
+                            "what": f"{vname} ({mode}) given {xname} raised {type(e).__name__}: {str(e)[:120]}", "replay_case": {"interpreter_limits": True}}
+    return None
+
+
 def run(tier: str, rng: random.Random, proof_ok: bool) -> dict:
     rep = run_families("C01", cases(tier, rng), rng, oracle, nontrivial)
+    il = interpreter_limits()
+    if il:
+        rep["violations"].append(il)
     bad, n = histories(tier, rng)
     rep["violations"] += bad
     rep["coverage"]["mixed_style_histories_on_one_instance"] = n
@@ -265,5 +295,9 @@ def run(tier: str, rng: random.Random, proof_ok: bool) -> dict:
 def replay(path: str) -> int:
     import json
     rc = json.load(open(path)).get("replay_case")
+    if isinstance(rc, dict) and rc.get("interpreter_limits"):
+        il = interpreter_limits()
+        print("property violated: " + il["what"] if il else "property holds for values at the interpreter's limits")
+        return 1 if il else 0
     r = replay_special(rc, "C01", judge=raised) if isinstance(rc, dict) else None
     return r if r is not None else generic_replay(path, oracle)
